@@ -136,11 +136,15 @@ impl Model {
     }
 }
 
-pub fn expect_vec(tag: &str, v: &ohsl::Vector<Sym>, model: &[Sym]) {
-    let ok = v.size() == model.len();
+pub trait VecLike { fn vlen(&self) -> usize; fn at(&self, i: usize) -> Sym; }
+impl VecLike for ohsl::Vector<Sym> { fn vlen(&self) -> usize { self.size() } fn at(&self, i: usize) -> Sym { self[i] } }
+impl VecLike for ohsl_sym::Vector<Sym> { fn vlen(&self) -> usize { self.size() } fn at(&self, i: usize) -> Sym { self[i] } }
+
+pub fn expect_vec(tag: &str, v: &impl VecLike, model: &[Sym]) {
+    let ok = v.vlen() == model.len();
     prove(&format!("{}: length is {}", tag, model.len()), if ok { B::True } else { B::False });
     if !ok { return; }
-    for i in 0..model.len() { prove_eq(&format!("{}: element {}", tag, i), v[i], model[i]); }
+    for i in 0..model.len() { prove_eq(&format!("{}: element {}", tag, i), v.at(i), model[i]); }
 }
 
 /// Run an operation that must succeed and hand its result to `then`.
